@@ -323,7 +323,9 @@ def r10_2(ctx: Ctx) -> RuleResult:
                 return op
             return None
 
-        outs = explore(ctx.folder, canon, {parentp: prefix}, oracle_for("InfixExpression"), None, value_oracle)
+        from sa.consteval import Instance
+
+        outs = explore(ctx.folder, canon, {parentp: prefix, "self": Instance(canon.cls)}, oracle_for("InfixExpression"), None, value_oracle)
         rets = [(n, v) for k, n, v in outs if k == "return"]
         if not rets:
             raise AnalysisError(f"R10.2: _canonical_string returns nothing for an infix `{op}`")
